@@ -106,21 +106,18 @@ def rows(tier: str):
         ('chain-new-new-r', 'chain',
          [[trig(a, 'new')], [trig(a, 'new'), trig(c, 'new')]], 1, None, {}),
         ('chain-3-new-r', 'chain',
-         [[trig(c, '3'), trig(c, '2')], [trig(a, 'new'), setout(b, 'new')]],
-         1, None, {}),
+         [[trig(c, '3')], [trig(a, 'new'), setout(b, 'new')]], 1, None, {}),
         ('chain-rerun-r', 'chain',
-         [[trig(a, '1'), trig(a, 'all')], [trig(b, 'new'), setpre(c, '1')]],
-         1, None, {}),
-        ('diamond-new-all-r', 'diamond',
-         [[trig(a, 'new')], [trig(b, 'all')]], 1, None, {}),
+         [[trig(a, '1')], [trig(b, 'new'), setpre(c, '1')]], 1, None, {}),
+        ('diamond-new-all', 'diamond',
+         [[trig(a, 'new')], [trig(b, 'all')]], 0, None, {}),
         ('chain-none-r', 'chain',
-         [[trig(b, 'none'), trig(a, '2', True)],
-          [trig(a, 'new'), trig(a, 'all')]], 1, None, {}),
+         [[trig(b, 'none')], [trig(a, 'new'), trig(a, 'all')]], 1, None, {}),
         ('ordiamond-new', 'ordiamond',
          [[trig(a, 'new')], [trig(b, '1')]], 0, None, {}),
         ('chain-set-set', 'chain',
-         [[setout(a, 'new'), setpre(c, '2')],
-          [setout(b, '1', True), trig(a, 'all')]], 0, None, {}),
+         [[setout(a, 'new'), setpre(c, '2')], [setout(b, '1', True)]], 0,
+         None, {}),
     ]
 
 
